@@ -3,7 +3,7 @@ import ast
 
 from ..model import AnalysisError, own_nodes, norm_src
 from ..report import RuleResult
-from ..util import key_of, src, call_name
+from ..util import key_of, src, call_name, kwarg
 from ..callgraph import fi_cls
 
 META = {
@@ -289,6 +289,57 @@ def rule_refs(ctx):
                     'path does)' % (q, norm_src(first) if first is not None
                                     else ''), file=EXCEL, function=q,
                     line=c.lineno)
+    # from_dict compiles the cells with the very table _update_refs filled
+    f = p.func(EXCEL, 'ExcelModel.from_dict')
+    upd = [n for n in own_nodes(f) if isinstance(n, ast.Call)
+           and call_name(n) == '_update_refs' and len(n.args) >= 2]
+    comp = [n for n in own_nodes(f) if isinstance(n, ast.Call)
+            and call_name(n) == 'compile' and kwarg(n, 'references') is not None]
+    if upd and comp and isinstance(upd[0].args[1], ast.Name):
+        table = upd[0].args[1].id
+        from ..util import assigned_value
+        for c in comp:
+            rr.instances += 1
+            x = kwarg(c, 'references')
+            vals = [x]
+            if isinstance(x, ast.Name) and x.id != table:
+                vals = assigned_value(f, x.id) or [x]
+            verdict = None
+            for v in vals:
+                t = norm_src(v)
+                if t in (table, 'dict(%s)' % table, '%s.copy()' % table,
+                         '{**%s}' % table):
+                    verdict = verdict or 'same'
+                elif isinstance(v, (ast.DictComp,)) and any(
+                        g.ifs for g in v.generators) and table in {
+                        n.id for n in ast.walk(v) if isinstance(n, ast.Name)}:
+                    verdict = 'filtered'
+                elif isinstance(v, ast.DictComp) and table in {
+                        n.id for n in ast.walk(v) if isinstance(n, ast.Name)}:
+                    verdict = verdict or 'same'
+                else:
+                    verdict = verdict or 'unknown'
+            if verdict == 'same':
+                rr.ok('from_dict compiles cells against the complete table '
+                      '`%s` that _update_refs resolved' % table,
+                      '%s:%d' % (EXCEL, c.lineno))
+            elif verdict == 'filtered':
+                rr.fail(key_of(f, 'cells compiled against a filtered '
+                                  'reference table'),
+                        'from_dict compiles the cells with `references=%s`, a '
+                        'filtered copy of `%s`: names whose entry was filtered '
+                        'out (those _update_refs could not turn into a range) '
+                        'are unknown to the formulas that use them and become '
+                        '#REF!, while the workbook load path passes the whole '
+                        'table' % (norm_src(x), table), file=EXCEL,
+                        function=f.qualname, line=c.lineno)
+            else:
+                raise AnalysisError('from_dict: references=%s is not '
+                                    'recognisably the table given to '
+                                    '_update_refs' % norm_src(x))
+    else:
+        raise AnalysisError('from_dict: _update_refs / compile(references=) '
+                            'not recognised')
     return rr
 
 
